@@ -292,7 +292,7 @@ class Recorder:
 
     def write(self, path):
         os.makedirs(os.path.dirname(path), exist_ok=True)
-        tmp = path + ".tmp"
+        tmp = path + f".tmp{os.getpid()}"       # (another check process may be recording the same configuration)
         with open(tmp, "w") as f:
             for ln in self.lines:
                 f.write(dumps(ln) + "\n")
